@@ -213,7 +213,7 @@ def r_minterm(d, x):
     v = 0
     for i, b in enumerate(_lst(x, 'b', d['n'])):
         v |= b << i
-    return {'r': 1 if v == d['value'] else 0}
+    return {'r': 1 if v == d['value'] % (1 << d['n']) else 0}
 
 
 def r_sumofminterms(d, x):
@@ -234,11 +234,11 @@ def r_equal(d, x):
 
 
 def r_equalconstant(d, x):
-    return {'r': 1 if x['a'] == d['v'] else 0}
+    return {'r': 1 if x['a'] == d['v'] % (1 << d['w']) else 0}
 
 
 def r_notequalconstant(d, x):
-    return {'r': 1 if x['a'] != d['v'] else 0}
+    return {'r': 1 if x['a'] != d['v'] % (1 << d['w']) else 0}
 
 
 def r_anyequal(d, x):
